@@ -635,6 +635,129 @@ def _thread_part(ctx, root, pool):
             "requests": nreq, "accepted": acc, "rejected": nrej, "nontrivial": nontriv, "drift": drift,
             "sample": sample, "n": n}
 
+# ------------------------------------------------------------------ overlapping requests (ServerConc.tla)
+def _conc_worker(job):
+    """Replay Begin/Finish interleavings through the real app: requests are asyncio tasks on one loop, the stub
+    generation signals when it is entered and waits for its gate."""
+    import asyncio
+    import httpx
+    root, behaviours = job
+    _boot(root)
+    api, rec = _W["api"], _W["rec"]
+    api.app.single_config_mode = False
+    api.app.single_config_id = None
+    api.app.default_config_id = "a"
+    out = []
+
+    async def one(evs):
+        store = _W["MemoryStore"]()
+        api.register_datastore(store)
+        api.llm_rails_instances.clear()
+        entered, gate, usedm, tasks = {}, {}, {}, {}
+        replies = {}
+
+        async def gen(self, messages=None, options=None, state=None, streaming_handler=None, **kw):
+            k = int(re.match(r"^m(\d+)\.1$", messages[-1]["content"]).group(1))
+            usedm[k] = json.loads(json.dumps(messages))
+            entered[k].set()
+            await gate[k].wait()
+            replies["R%d" % k] = k
+            return {"role": "assistant", "content": "R%d" % k}
+
+        cls = api.LLMRails
+        old = cls.generate_async
+        cls.generate_async = gen
+        trace = []
+
+        def snap():
+            s = []
+            for key in (1, 2):
+                raw = store.data.get("thread-" + TID[key])
+                try:
+                    s.append([_tok(m, replies) for m in json.loads(raw)] if raw is not None else [])
+                except Exception:
+                    s.append([UNKNOWN])
+            return s
+        try:
+            async with httpx.AsyncClient(transport=httpx.ASGITransport(app=api.app), base_url="http://t") as client:
+                for (what, k, t) in evs:
+                    if what == "B":
+                        entered[k], gate[k] = asyncio.Event(), asyncio.Event()
+                        tasks[k] = asyncio.ensure_future(client.post("/v1/chat/completions", json=_thread_body(k, t, 1)))
+                        for _ in range(400):
+                            if entered[k].is_set() or tasks[k].done():
+                                break
+                            await asyncio.sleep(0)
+                        if not entered[k].is_set():
+                            trace.append({"e": "X", "k": k, "t": t, "u": [], "s": snap(), "why": "generation not entered"})
+                            break
+                        replies_now = dict(replies)
+                        replies_now.update({"R%d" % j: j for j in tasks})
+                        trace.append({"e": "B", "k": k, "t": t, "u": [_tok(m, replies_now) for m in usedm[k]], "s": snap()})
+                    else:
+                        gate[k].set()
+                        resp = await tasks[k]
+                        reply, content = _classify(resp)
+                        trace.append({"e": "F" if reply == "ok" and content == "R%d" % k else "X", "k": k, "t": t, "u": [], "s": snap()})
+        finally:
+            cls.generate_async = old
+            for g in gate.values():
+                g.set()
+        return trace
+
+    for evs in behaviours:
+        out.append((evs, asyncio.run(one(evs))))
+    return out
+
+
+def _conc_part(ctx, root, pool):
+    nreq = 3 if ctx.quick else 4
+    cfg = 'CONSTANTS Mode = "%s"\nNReq = %d\nTids = {1, 2}\nSPECIFICATION Spec\n'
+    invs = ["Owned", "UsedOwn", "NoDup"]
+    m = tlc.run("ServerConc.tla", cfg % ("mc", nreq) + "".join("INVARIANT %s\n" % i for i in invs) + "PROPERTY StoredExact\n",
+                ctx.sub("conc_mc"), spec_dirs=[SPEC_DIR], workers=8, timeout=3000, expect_fail=True)
+    design = {i: ("violated" if i in m.violated else "holds") for i in invs + ["StoredExact"]}
+    lost = tlc.run("ServerConc.tla", cfg % ("mc", 2) + "INVARIANT NoLostUpdate\n", ctx.sub("conc_lost"), spec_dirs=[SPEC_DIR],
+                   workers=4, timeout=3000, expect_fail=True)
+    design["NoLostUpdate (not promised: last writer wins)"] = "violated" if "NoLostUpdate" in lost.violated else "holds"
+    e = tlc.run("ServerConc.tla", cfg % ("emit", nreq) + "INVARIANT EmitLine\n", ctx.sub("conc_emit"), spec_dirs=[SPEC_DIR],
+                workers=1, timeout=3000)
+    # EmitLine prints once per final STATE; different interleavings reaching the same state differ in evs (a variable): all are printed
+    behaviours = sorted(set(tuple(tuple(x) for x in p["evs"]) for p in e.printed if "evs" in p))
+    expected = {tuple(tuple(x) for x in p["evs"]): p for p in e.printed if "evs" in p}
+    jobs = [(root, behaviours[s:s + 40]) for s in range(0, len(behaviours), 40)]
+    traces = []
+    for res in pool.imap(_conc_worker, jobs, chunksize=1):
+        traces += res
+    overlapping = sum(1 for evs, _ in traces if any(evs[i][0] == "B" and evs[i + 1][0] == "B" for i in range(len(evs) - 1)))
+    ctx.log("ServerConc: %d states, %d Begin/Finish interleavings of %d requests over 2 thread ids replayed (%d with overlapping requests)" % (
+        m.distinct, len(traces), nreq, overlapping))
+    wd = ctx.sub("conc_trace")
+    fn = os.path.join(wd, "traces.json")
+    with open(fn, "w") as f:
+        json.dump([[{k: s[k] for k in ("e", "k", "t", "u", "s")} for s in tr] for _, tr in traces], f)
+    r = tlc.run("ServerConc.tla", cfg.replace("SPECIFICATION Spec", "SPECIFICATION TSpec") % ("trace", nreq)
+                + "CONSTRAINT Track\nINVARIANT TraceInv\nPOSTCONDITION TraceReport\n", wd, spec_dirs=[SPEC_DIR],
+                env={"TRACE_FILE": fn}, workers=1, timeout=3000)
+    rep = [p for p in r.printed if "accepted" in p][-1]
+    assert rep["accepted"] + rep["nrejected"] == len(traces)
+    drift = 0
+    for evs, tr in traces:
+        want = expected[tuple(tuple(x) for x in evs)]["store"]
+        if not tr or tr[-1]["s"] != want:
+            drift += 1
+    ctx.drift += drift
+    for ti, step in rep["rejected"][:20]:
+        evs, tr = traces[ti - 1]
+        s = tr[step - 1]
+        ctx.violation("thread-history", "overlapping requests %s (B = generation entered, F = request completed; k, thread): event %d is not a step of "
+                      "ServerConc: %s" % ([list(x) for x in evs], step, json.dumps(s)),
+                      {"part": "threads-concurrent", "evs": [list(x) for x in evs], "rejected_at": step, "trace": tr,
+                       "sig": {"step_kind": "concurrent-" + s["e"], "shape": 1, "generated": True}})
+    return {"states": m.distinct + e.distinct + r.distinct, "transitions": m.generated + e.generated + r.generated, "design": design,
+            "behaviours": len(traces), "overlapping": overlapping, "accepted": rep["accepted"], "rejected": rep["nrejected"], "drift": drift,
+            "events": sum(len(tr) for _, tr in traces), "nreq": nreq}
+
 
 def run(ctx):
     base = ctx.sub("c20")
@@ -643,6 +766,7 @@ def run(ctx):
         with mp.Pool(16) as pool:
             cfg = _config_part(ctx, base, pool)
             thr = _thread_part(ctx, cfg["root"], pool)
+            con = _conc_part(ctx, cfg["root"], pool)
     finally:
         shutil.rmtree(base, ignore_errors=True)
     maxlen, maxcomps, maxlist = cfg["bounds"]
@@ -650,11 +774,11 @@ def run(ctx):
     return {
         "level": LEVEL,
         "coverage": {
-            "states": cfg["states"] + thr["states"],
-            "transitions": cfg["transitions"] + thr["transitions"],
-            "traces_validated_against_impl": cfg["judged"] + thr["accepted"] + thr["rejected"],
-            "evaluations": cfg["requests"] + thr["requests"],
-            "distinct_nontrivial": cfg["nontrivial"] + thr["nontrivial"],
+            "states": cfg["states"] + thr["states"] + con["states"],
+            "transitions": cfg["transitions"] + thr["transitions"] + con["transitions"],
+            "traces_validated_against_impl": cfg["judged"] + thr["accepted"] + thr["rejected"] + con["accepted"] + con["rejected"],
+            "evaluations": cfg["requests"] + thr["requests"] + con["events"],
+            "distinct_nontrivial": cfg["nontrivial"] + thr["nontrivial"] + con["overlapping"],
             "rule": "config ids: every string of length <= %d over {a . / \\ %% 2 e ~ -} as config_id, every id built from 1..%d "
                     "components of {.., ., '', a, aa, e, e2, %%2e%%2e, ~, a-a, ...} in 6 variants (relative, /, //, <root>/, "
                     "<parent>/, backslash-joined), config_ids lists of length <= %d over 18 ids; families F1 (cache cleared), "
@@ -662,10 +786,13 @@ def run(ctx):
                     "(family, request); non-trivial = not a single plain name (separator, dot sequence, %%, ~, empty, absolute, "
                     "or a list). threads: every request sequence of length %d over 3 thread ids x 3 shapes + no-thread + "
                     "too-short id (all prefixes are checked on the way); non-trivial = at least two requests carrying a valid "
-                    "thread id" % (maxlen, maxcomps, maxlist, thr["n"]),
+                    "thread id; overlapping requests: every interleaving of the generation-entry / completion steps of %d requests over 2 "
+                    "thread ids (ServerConc), non-trivial = at least two requests in flight together" % (maxlen, maxcomps, maxlist, thr["n"], con["nreq"]),
             "samples": samples,
             "exhaustive": True,
-            "design_verdict": {"get_rails": cfg["design"], "thread_store": thr["design"]},
+            "design_verdict": {"get_rails": cfg["design"], "thread_store": thr["design"], "thread_store_concurrent": con["design"]},
+            "concurrent_behaviours": con["behaviours"], "concurrent_behaviours_overlapping": con["overlapping"],
+            "concurrent_traces_accepted": con["accepted"], "concurrent_traces_rejected": con["rejected"],
             "commonprefix_alone_would_accept_escaping_ids": cfg["prefix_only_unsound"],
             "commonprefix_alone_example": cfg["prefix_only_example"],
             "config_requests": cfg["requests"], "config_cases_by_family": cfg["families"],
@@ -715,6 +842,21 @@ def replay(ctx, rec):
             print("replay verdict: %s" % ("Trace_Server accepts the sequence" if acc == 1 else
                                           "violation reproduced (rejected at request %s)" % [r[1] for r in rej]))
             return acc == 1
+        if case.get("part") == "threads-concurrent":
+            evs = [tuple(x) for x in case["evs"]]
+            (_, tr), = _conc_worker((root, [evs]))
+            for e in tr:
+                print("event %s request %d thread %d: generation received %s ; datastore %s" % (e["e"], e["k"], e["t"], e["u"], e["s"]))
+            wd = ctx.sub("replayconc")
+            fn = os.path.join(wd, "traces.json")
+            with open(fn, "w") as f:
+                json.dump([[{k: x[k] for k in ("e", "k", "t", "u", "s")} for x in tr]], f)
+            r = tlc.run("ServerConc.tla", 'CONSTANTS Mode = "trace"\nNReq = 4\nTids = {1, 2}\nSPECIFICATION TSpec\nCONSTRAINT Track\n'
+                        'INVARIANT TraceInv\nPOSTCONDITION TraceReport\n', wd, spec_dirs=[SPEC_DIR], env={"TRACE_FILE": fn}, workers=1, timeout=600)
+            rep = [p for p in r.printed if "accepted" in p][-1]
+            print("replay verdict: %s" % ("ServerConc accepts the execution" if rep["accepted"] == 1 else
+                                          "violation reproduced (rejected at event %s)" % [x[1] for x in rep["rejected"]]))
+            return rep["accepted"] == 1
         fam = case["family"]
         old_parent = case.get("parent") or ""
         ids = [i.replace(old_parent, parent) if old_parent else i for i in case["ids"]]
